@@ -154,8 +154,16 @@ def run(ck):
                 "170141183460469231731687303715884105727", "170141183460469231731687303715884105728", "-170141183460469231731687303715884105728", "-170141183460469231731687303715884105729"]:
         forms += ["module M\nenum E : int64 { A = %s, B }\n" % lit, "module M\nunchecked enum E { A = %s }\n" % lit, "module M\nstruct S { tag(%s) a: int32? }\n" % lit,
                   "module M\ninterface I { op(tag(%s) a: int32?) -> tag(%s) string? }\n" % (lit, lit), "module M\nenum E { A(tag(%s) x: bool?) = %s }\n" % (lit, lit)]
+    # every white-space character (and a few look-alikes) at every gap of preprocessor directives, and in ordinary source
+    spaces = ["\x0b", "\x0c", "\x1c", "\x1f", "\x85", "\xa0", "\u1680", "\u2000", "\u2003", "\u200a", "\u2028", "\u2029", "\u202f", "\u205f", "\u3000", "\u200b", "\ufeff", "\u180e", "\r", "\t", "\0"]
+    for w in spaces:
+        for tpl in ["#define%sFOO\nmodule M\n", "#define FOO%s\nmodule M\n", "#%sdefine FOO\nmodule M\n", "%s#define FOO\nmodule M\n", "#undef%sFOO\nmodule M\n", "#if%sFOO\nmodule M\n#endif\n", "#if FOO%s\nmodule M\n#endif\n",
+                    "#if FOO%s&& BAR\nmodule M\n#endif\n", "#if !%sFOO\nmodule M\n#endif\n", "#if (%sFOO )\nmodule M\n#endif\n", "#if FOO\n#elif%sBAR\nmodule M\n#endif\n", "#if FOO\nmodule M\n#else%s\nmodule N\n#endif%s\n",
+                    "#if FOO ||%s\nmodule M\n#endif\n", "module M%s\nstruct S {%sa: int32%s}\n", "module M\n[x::a(%sb,%s\"c\")] struct S {}\n", "module M\n///%s@param%sx:%sy\ninterface I { op(x: bool) }\n",
+                    "module M\nstruct S { tag(%s1%s) a: bool? }\n"]:
+            forms.append(tpl.replace("%s", w))
     o3 = core.run_impl("diags", ["diags - " + hx(t) for t in forms], chunk=200, timeout=120)
-    ck.stream("forms", description="every type form (primitive, optional, sequence, dictionary, result, struct/enum/interface/custom/alias names, global, unknown, module name, nested, attributed, malformed) in every type position "
+    ck.stream("forms", description="every Unicode white-space character (and zero-width look-alikes, NUL) at every gap of every preprocessor directive and of ordinary source; every type form (primitive, optional, sequence, dictionary, result, struct/enum/interface/custom/alias names, global, unknown, module name, nested, attributed, malformed) in every type position "
               "(field, base, second base, underlying type, alias target, dictionary key/value, parameter, return tuple, enumerator field, tagged, compact, streamed, element, link); containment/alias/inheritance cycles; "
               "every program of three aliases over {name, sequence, dictionary, result} x {A, B, C, int32} (4096, exhaustive); malformed and boundary integer literals in every literal position; mixed-width and CRLF doc comments; deep nesting (300), long lists (3000), long chains (300-400), unterminated constructs")
     for t, oo in zip(forms, o3):
@@ -222,12 +230,12 @@ def run(ck):
         files = []
         for j in range(rng.choice([0, 1, 1, 2, 3])):
             files.append((rng.choice("SSR"), "f%d.slice" % j, rng.choice(["", "module M%d\n" % j, "module M\nstruct S%d {}\n" % j, "// c\n", "struct X {}\n", "module M\nstruct S { a: Nope }\n", "﻿", "#if X\n"])))
-        gens = [("gen-ok-%d" % g, rng.choice([None, "a=b", "k"]), None) for g in range(rng.choice([0, 0, 1, 2]))]
+        gens = [("gen-%s-%d" % (rng.choice(["ok", "ok", "bigstderr", "bigout", "bigboth", "stderr", "exit1", "noread", "sigkill", "empty"]), g), rng.choice([None, "a=b", "k"]), None) for g in range(rng.choice([0, 0, 1, 2]))]
         lines.append(dc.run_line(False, extra, gens, files))
         metas.append((extra, files, gens))
     o5 = dc.run_all(lines, chunk=15, timeout=120)
     ck.stream("command-lines", description="the real binary with random -D/-A/-G/-O/-R/--diagnostic-format/--dry-run options whose values include the empty string, blanks, separators, unknown names; "
-              "0-3 files including empty, comment-only, module-less, BOM-only and directive-only ones; 0-2 generators")
+              "0-3 files including empty, comment-only, module-less, BOM-only and directive-only ones; 0-2 generators that behave, fail, or write a megabyte to stderr, stdout or both")
     for (extra, files, gens), line, oo in zip(metas, lines, o5):
         case = "options: %r\nfiles: %r" % (extra, [(k, n, t) for k, n, t in files])
         ck.count("command-lines", line)
